@@ -738,3 +738,8 @@ MANIFEST_ENTRY = dict(
     note='The storage substrate (file system, SQLite, index array) being a map is the trusted base; backends needing network services are outside; '
          'CrossHair bounds are small (lists <= 3).',
 )
+
+# --- manifest text refreshed after rounds 6-8 (obligations added since the entry above was written)
+MANIFEST_ENTRY['text'] = MANIFEST_ENTRY['text'] + ' Compact bundles: routing to bundle and slot, slot independence (frame argument); SQLite backends: a store/remove is committed when the call returns (two-connection transaction model, CrossHair).'
+META['assumptions'] = list(META.get('assumptions', [])) + ["sqlite-committed obligations: SQLite is a two-connection transaction model (statements act on the connection's pending table, commit() publishes it); only the statement kinds of mbtiles.py/geopackage.py are interpreted"]
+META['bounds'] = META.get('bounds', '') + '; sqlite-committed: <= 2 pre-existing rows, coordinates 0..2'
